@@ -6,6 +6,8 @@ import copy
 import dataclasses
 import itertools
 import re
+import textwrap
+import types
 from typing import Any
 
 from jinja2 import nodes
@@ -171,6 +173,20 @@ def _fold_expr(c: nodes.Node) -> nodes.Node:
         l, r = _fold_expr(c.left), _fold_expr(c.right)
         if isinstance(l, nodes.Const):
             return (r if l.value else l) if isinstance(c, nodes.And) else (l if l.value else r)
+    if isinstance(c, (nodes.Getattr, nodes.Getitem)):
+        # an entry of a dict the template spells out (a row of a literal table once the row stands where the loop variable stood):
+        # `row["k"]` is the entry; `row.k` is the entry unless dict itself has an attribute k (Jinja looks at attributes first)
+        d = _fold_expr(c.node)
+        key = c.attr if isinstance(c, nodes.Getattr) else (c.arg.value if isinstance(c.arg, nodes.Const) else None)
+        if isinstance(d, nodes.Dict) and isinstance(key, str) and not (isinstance(c, nodes.Getattr) and hasattr(dict, key)):
+            hits = [p.value for p in d.items if isinstance(p.key, nodes.Const) and p.key.value == key]
+            if hits and all(isinstance(p.key, nodes.Const) for p in d.items):
+                return _fold_expr(hits[-1])
+    if isinstance(c, nodes.Concat):
+        # `a ~ b` over literal texts / integers is the text written out
+        parts = [_fold_expr(x) for x in c.nodes]
+        if all(isinstance(x, nodes.Const) and isinstance(x.value, (str, int)) and not isinstance(x.value, bool) for x in parts):
+            return nodes.Const("".join(str(x.value) for x in parts), lineno=c.lineno)
     return c
 
 
@@ -273,9 +289,11 @@ def _inline_macros(body: "list[nodes.Node]", resolve: Any, depth: int = 2) -> "l
 
 def _literal_elements(it: nodes.Node) -> "list[nodes.Node] | None":
     """the elements of a literal list / tuple whose elements are constants, names or displays of those (evaluating them has no effect and
-    gives the same value every time: reading the element where the loop variable is read is the same program)"""
+    gives the same value every time: reading the element where the loop variable is read is the same program); a dict display with
+    constant keys is such an element too (a row of a table: `row.k` / `row["k"]` then reads as the entry, _fold_expr)"""
     def plain(e: nodes.Node) -> bool:
-        return isinstance(e, (nodes.Const, nodes.Name)) or (isinstance(e, (nodes.Tuple, nodes.List)) and all(plain(x) for x in e.items))
+        return isinstance(e, (nodes.Const, nodes.Name)) or (isinstance(e, (nodes.Tuple, nodes.List)) and all(plain(x) for x in e.items)) \
+            or (isinstance(e, nodes.Dict) and all(isinstance(p.key, nodes.Const) and plain(p.value) for p in e.items))
 
     return list(it.items) if isinstance(it, (nodes.List, nodes.Tuple)) and it.items and all(plain(x) for x in it.items) else None
 
@@ -304,17 +322,49 @@ def _subst_loop(n: nodes.Node, attrs: "dict[str, Any]") -> bool:
     return ok
 
 
-def _unroll(body: "list[nodes.Node]", depth: int = 3) -> "list[nodes.Node]":
+def _table_names(tree: nodes.Node) -> "set[str]":
+    """names a template binds exactly once, by a `set` statement, and in no other way (no second `set`, no loop / `with` / import
+    target, no macro or call-block parameter of that name): wherever such a name is read after the `set`, it reads that one value"""
+    count: dict[str, int] = {}
+    for a in tree.find_all(nodes.Assign):
+        for t in ([a.target] if isinstance(a.target, nodes.Name) else list(a.target.find_all(nodes.Name))):
+            count[t.name] = count.get(t.name, 0) + 1
+    other: set[str] = set()
+    for n in tree.find_all((nodes.For, nodes.With, nodes.Macro, nodes.CallBlock, nodes.AssignBlock, nodes.Import, nodes.FromImport)):
+        if isinstance(n, nodes.For):
+            other |= {x.name for x in n.target.find_all(nodes.Name)} | ({n.target.name} if isinstance(n.target, nodes.Name) else set())
+        elif isinstance(n, nodes.With):
+            other |= {x.name for t in n.targets for x in ([t] if isinstance(t, nodes.Name) else t.find_all(nodes.Name))}
+        elif isinstance(n, (nodes.Macro, nodes.CallBlock)):
+            other |= {a.name for a in n.args} | ({n.name} if isinstance(n, nodes.Macro) else set())
+        elif isinstance(n, nodes.AssignBlock):
+            other |= {x.name for x in ([n.target] if isinstance(n.target, nodes.Name) else n.target.find_all(nodes.Name))}
+        elif isinstance(n, nodes.Import):
+            other.add(n.target)
+        else:
+            other |= {(nm if isinstance(nm, str) else nm[1]) for nm in n.names}
+    return {k for k, v in count.items() if v == 1 and k not in other}
+
+
+def _unroll(body: "list[nodes.Node]", depth: int = 3, tables: "dict[str, nodes.Node] | None" = None, single: "set[str] | None" = None) -> "list[nodes.Node]":
     """The template body with every `for` over a literal list / tuple (of constants, names, displays of those; no `else`, not recursive)
     replaced by its rounds written out: in each round the loop variables read as the round's element, `loop.first / last / index /
     index0 / length` as their values, a `set` variable of the round whose definition has become a literal as that literal (_fold: a
     conditional over a literal is the arm it selects, a literal that is emitted is template text).  A loop filter stays as an `if`
     around the round (then `loop.*` is not known and, if read, the loop stays).  Writing n similar pieces of a template as one loop over
-    a table of their differences renders the same text, so rules about what is emitted read the rounds."""
+    a table of their differences renders the same text, so rules about what is emitted read the rounds.
+    single (given for the template's own body only): the names the template binds once (_table_names) - a loop over such a name, after
+    the top-level `set` that binds it to a literal table, is the loop over that table (macros inlined before: _inline_macros)."""
     out: list[nodes.Node] = []
+    top = single is not None       # the template's own body: its `set` statements are passed in order
+    tables = {} if tables is None else tables
     for n in body:
-        if isinstance(n, nodes.For) and depth > 0 and not n.else_ and not n.recursive and _literal_elements(n.iter) is not None:
-            elems = _literal_elements(n.iter) or []
+        if top and isinstance(n, nodes.Assign) and isinstance(n.target, nodes.Name) and n.target.name in (single or ()) \
+                and _literal_elements(n.node) is not None:
+            tables[n.target.name] = n.node
+        it_ = tables.get(n.iter.name, n.iter) if isinstance(n, nodes.For) and isinstance(n.iter, nodes.Name) else getattr(n, "iter", None)
+        if isinstance(n, nodes.For) and depth > 0 and not n.else_ and not n.recursive and _literal_elements(it_) is not None:
+            elems = _literal_elements(it_) or []
             targets = [n.target] if isinstance(n.target, nodes.Name) else list(n.target.items) if isinstance(n.target, nodes.Tuple) else None
             rounds: "list[nodes.Node] | None" = [] if targets is not None and all(isinstance(t, nodes.Name) for t in targets) else None
             for i, el in enumerate(elems):
@@ -353,19 +403,19 @@ def _unroll(body: "list[nodes.Node]", depth: int = 3) -> "list[nodes.Node]":
                     wrap = nodes.Scope([nodes.Output([test])])
                     _subst(wrap, binding)
                     done = [nodes.If(wrap.body[0].nodes[0], done, [], [], lineno=n.lineno)]
-                rounds += _unroll(_fold(done), depth - 1)
+                rounds += _unroll(_fold(done), depth - 1, tables)
             if rounds is not None:
                 out += rounds
                 continue
         n2 = copy.copy(n)
         for fld in ("body", "else_"):
             if isinstance(getattr(n, fld, None), list):
-                setattr(n2, fld, _unroll(getattr(n, fld), depth))
+                setattr(n2, fld, _unroll(getattr(n, fld), depth, tables))
         if isinstance(n, nodes.If):
             n2.elif_ = []
             for el in n.elif_:
                 el2 = copy.copy(el)
-                el2.body = _unroll(el.body, depth)
+                el2.body = _unroll(el.body, depth, tables)
                 n2.elif_.append(el2)
         out.append(n2)
     return out
@@ -391,6 +441,53 @@ def _generated_module(jx: Any, template: str) -> "ast.Module | None":
         return ast.parse(text)
     except (SyntaxError, ValueError):
         return None
+
+
+def _expanded_functions(jx: Any, template: str) -> "dict[str, list[ast.AST]]":
+    """The functions a template writes, per class, read on the expanded template (macros of the template and macros imported by name
+    inlined with their arguments, loops over literal tables written out round by round, literals folded into the text; an output
+    expression that stays is a placeholder): the text is cut at every `def` / `async def` line, the function is the shortest run of
+    lines from there, ending in front of a line indented no deeper than the `def`, that is one function definition in Python; its class
+    is the last `class <Name>` line at column 0 before it ("" when none).  Text that is no Python between the functions (docstring
+    macros, attribute declarations written through filters) is passed over; both arms of a condition stand one after the other."""
+    ti = jx.templates[template]
+    imported: dict[str, tuple[str, str]] = {}
+    for imp in ti.tree.find_all(nodes.FromImport):
+        if isinstance(imp.template, nodes.Const) and isinstance(imp.template.value, str):
+            for nm in imp.names:
+                src, alias = nm if isinstance(nm, tuple) else (nm, nm)
+                imported[alias] = (imp.template.value, src)
+
+    def resolve(name: str) -> "nodes.Macro | None":
+        if name in ti.macros:
+            return ti.macros[name]
+        t2 = jx.templates.get(imported[name][0]) if name in imported else None
+        return t2.macros.get(imported[name][1]) if t2 is not None else None
+
+    single = _table_names(ti.tree)
+    body = _unroll(_inline_macros(_unroll(ti.tree.body, single=single), resolve), single=single)
+    text = "".join(f.text if f.kind == "data" else "__expr__" for f in tplq.frags(body))
+    lines = text.split("\n")
+    out: dict[str, list[ast.AST]] = {}
+    klass = ""
+    for i, ln in enumerate(lines):
+        mc = re.match(r"class[ \t]+(\w+)", ln)
+        if mc:
+            klass = mc.group(1)
+        mh = re.match(r"([ \t]*)(?:async[ \t]+def|def)[ \t]+\w+[ \t]*\(", ln)
+        if not mh:
+            continue
+        ind = len(mh.group(1).expandtabs())
+        ends = [j for j in range(i + 1, len(lines)) if lines[j].strip() and len(lines[j]) - len(lines[j].lstrip()) <= ind] + [len(lines)]
+        for end in ends:
+            try:
+                mod = ast.parse(textwrap.dedent("\n".join(lines[i:end])))
+            except (SyntaxError, ValueError):
+                continue
+            if len(mod.body) == 1 and isinstance(mod.body[0], (ast.FunctionDef, ast.AsyncFunctionDef)):
+                out.setdefault(klass, []).append(mod.body[0])
+                break
+    return out
 
 
 def _call_signature(c: ast.Call, lc: Locals) -> "dict[str, str]":
@@ -1003,6 +1100,10 @@ def run(rep: Report, ctx: Any) -> str:
                       "and the fall-through `return <value>` is written exactly when a member without one exists")
     rep.rule("R04.8", "raising the dedicated error cannot fail itself: every conversion UnexpectedStatus applies to the raw body of an "
                       "undocumented response is total (bytes.decode with a non-raising error handler) or enclosed by a try catching it")
+    rep.rule("R04.15", "one parsed response per documented status: every statement of _add_responses (and of the private helpers it calls) "
+                       "that adds to <endpoint>.responses adds exactly one element, stands in exactly one loop, and no path of the loop "
+                       "body leads from one such statement to another (the statuses of the list stay pairwise distinct like the keys of "
+                       "the document's mapping; the generated dispatch decodes a status by the first response that carries it)")
     rep.rule("R04.7", "resolving a $ref'd component response rebinds only `data`: the threaded state and the naming inputs are the same as "
                       "for an inline response (shared with C20)")
 
@@ -1508,6 +1609,96 @@ def run(rep: Report, ctx: Any) -> str:
               lhs=[(o.kind, getattr(o.node, "lineno", "?"), sorted(o.flags - {"raised"})) for o in unrecorded],
               rhs="the iteration ends with an append to <endpoint>.errors and none to <endpoint>.responses")
 
+    # ---- R04.15: one parsed response per documented status ------------------------------------------------------------------------
+    # The endpoint template writes one status test per parsed response, in list order, each returning (R04.1): a status is decoded by
+    # the FIRST response that carries it, so "decoded according to the documented media type and schema" needs the statuses of
+    # <endpoint>.responses to be pairwise distinct.  The document's `responses` is a mapping (distinct keys) and a key converts to one
+    # status; the list inherits distinctness as long as every iteration over the mapping adds at most one element to it.  Stated on the
+    # statements that add to an attribute `responses` in _add_responses and the private helpers it calls: each adds exactly one element
+    # (append / insert / a one-element display added or extended), stands in exactly one loop (a helper's: none, and its call in
+    # _add_responses in one) and no path of the loop body leads from one of them to another without passing the loop head.
+    from ..cfg import CFG, own_exprs, walk_own
+
+    def added_elements(st: ast.stmt) -> "int | None":
+        """how many elements the statement adds to an attribute `responses` (0: none; None: a number that is not written down)"""
+        def is_resp(e: ast.AST) -> bool:
+            return isinstance(e, ast.Attribute) and e.attr == "responses"
+
+        def display_len(e: ast.AST) -> "int | None":
+            return len(e.elts) if isinstance(e, (ast.List, ast.Tuple)) and not any(isinstance(x, ast.Starred) for x in e.elts) else None
+
+        total: "int | None" = 0
+        for n in walk_own(st):
+            k: "int | None" = 0
+            if isinstance(n, ast.Call) and isinstance(n.func, ast.Attribute) and is_resp(n.func.value):
+                if n.func.attr in ("append", "insert"):
+                    k = 1
+                elif n.func.attr == "extend":
+                    k = display_len(n.args[0]) if len(n.args) == 1 else None
+            elif isinstance(n, ast.AugAssign) and is_resp(n.target):
+                k = display_len(n.value) if isinstance(n.op, ast.Add) else None
+            elif isinstance(n, (ast.Assign, ast.AnnAssign)) and any(is_resp(t) for t in (n.targets if isinstance(n, ast.Assign) else [n.target])):
+                v = n.value
+                if isinstance(v, ast.BinOp) and isinstance(v.op, ast.Add) and is_resp(v.left):
+                    k = display_len(v.right)
+                elif isinstance(v, (ast.List, ast.Tuple)) and sum(1 for x in v.elts if isinstance(x, ast.Starred)) == 1 \
+                        and all(is_resp(x.value) for x in v.elts if isinstance(x, ast.Starred)):
+                    k = len(v.elts) - 1
+                elif isinstance(v, (ast.List, ast.Tuple)) and not v.elts:
+                    k = 0
+                else:
+                    k = None
+            total = None if total is None or k is None else total + k
+        return total
+
+    def loops_around(fn: ast.AST, st: ast.AST) -> list[ast.AST]:
+        return [n for n in ast.walk(fn) if isinstance(n, (ast.For, ast.AsyncFor, ast.While, ast.ListComp, ast.SetComp, ast.DictComp, ast.GeneratorExp))
+                and n is not st and any(sub is st for sub in ast.walk(n))]
+
+    problems: list[str] = []
+    ar_sites: list[ast.stmt] = []      # statements of _add_responses that add a response (themselves or through a helper)
+    n_sites = 0
+    helper_names = {h.name: h for h in a_helpers}
+    adding_helpers: set[str] = set()
+    for g in [*a_helpers, ar]:
+        for st in [x for x in ast.walk(g.node) if isinstance(x, ast.stmt) and not isinstance(x, (ast.FunctionDef, ast.AsyncFunctionDef, ast.ClassDef))]:
+            if isinstance(st, (ast.If, ast.For, ast.AsyncFor, ast.While, ast.With, ast.AsyncWith, ast.Try)):
+                # a compound statement: its header only (the statements inside are looked at one by one)
+                hdr = ast.Expr(value=ast.Tuple(elts=[e for e in own_exprs(st) if isinstance(e, ast.expr)], ctx=ast.Load()))
+                k = added_elements(hdr)
+            else:
+                k = added_elements(st)
+            via = [helper_names[call_name(c).rsplit(".", 1)[-1]].name for c in calls_in(st) if not isinstance(st, (ast.If, ast.For, ast.AsyncFor, ast.While, ast.With, ast.AsyncWith, ast.Try))
+                   and call_name(c).rsplit(".", 1)[-1] in adding_helpers] if g is ar else []
+            if k == 0 and not via:
+                continue
+            n_sites += 1
+            if k is None or k + len(via) != 1:
+                problems.append(f"{short(g)}:{st.lineno} adds {'an unwritten number of' if k is None else k + len(via)} responses at once")
+            inner = loops_around(g.node, st)
+            if g is ar:
+                ar_sites.append(st)
+                if len(inner) != 1:
+                    problems.append(f"{short(g)}:{st.lineno} adds a response inside {len(inner)} nested loops")
+            else:
+                adding_helpers.add(g.name)
+                if inner:
+                    problems.append(f"{short(g)}:{st.lineno} adds a response inside a loop of the helper")
+    rep.require(n_sites, "a statement that adds to <endpoint>.responses in _add_responses or its private helpers")
+    ar_cfg = CFG(ar.node)
+    for s1 in ar_sites:
+        lp = loops_around(ar.node, s1)
+        if len(lp) != 1 or not isinstance(lp[0], ast.stmt):
+            continue
+        after = ar_cfg.reachable_from(s1, avoid=lambda n, _lp=lp[0]: n is _lp)
+        again = [s2 for s2 in ar_sites if s2 is not s1 and any(s2 is x for x in after)]
+        if again:
+            problems.append(f"{short(ar)}:{s1.lineno} and :{again[0].lineno} both add a response in one iteration")
+    rep.check(not problems, "R04.15", "_add_responses::one-response-per-documented-status",
+              "an iteration over the document's responses can add more than one parsed response: two responses with one status make the "
+              "later one unreachable in the generated status dispatch, so that status is decoded with another response's media type / schema",
+              where(ar, ar.node), lhs=problems, rhs="every iteration adds at most one element to <endpoint>.responses")
+
     # ---- R04.6 ----------------------------------------------------------------------------------------------------------------
     # Stated on what the union decoder WRITES, not on how the template keeps its books.  The construct macro of the union template is
     # walked symbolically (c04_tplwalk: nothing is run, no document value exists) for every list of up to three abstract members, each
@@ -1675,18 +1866,32 @@ def run(rep: Report, ctx: Any) -> str:
     rep.rule("R04.11", "in every class client.py.jinja writes, httpx.AsyncClient(...) is constructed with exactly the arguments (names and "
                        "values, ** expansions included) httpx.Client(...) is constructed with")
     rep.require("client.py.jinja" in jx.templates, "client.py.jinja")
+    # Two readers of the template, the first that finds a transport being built is used: the skeleton (the module laid out with holes),
+    # and the expanded template cut into its functions (which also reads a class whose methods are written by a loop over a table of
+    # literal rows: the rows' texts are folded into the function text).
     cmod = _generated_module(jx, "client.py.jinja")
-    rep.require(cmod is not None, "the module client.py.jinja writes, as Python")
-    n_transports = 0
-    for kls in [n for n in cmod.body if isinstance(n, ast.ClassDef)]:
-        built: dict[str, list[dict[str, str]]] = {}
-        for m in [x for x in ast.walk(kls) if isinstance(x, (ast.FunctionDef, ast.AsyncFunctionDef))]:
+    by_class: dict[str, list[ast.AST]] = {}
+    if cmod is not None:
+        by_class = {k.name: [x for x in ast.walk(k) if isinstance(x, (ast.FunctionDef, ast.AsyncFunctionDef))] for k in cmod.body if isinstance(k, ast.ClassDef)}
+
+    def transports(fns: "list[ast.AST]") -> "dict[str, list[dict[str, str]]]":
+        got: dict[str, list[dict[str, str]]] = {}
+        for m in fns:
             lc_m = Locals(m)
             for c in calls_in(m):
                 if call_name(c) in ("httpx.Client", "httpx.AsyncClient"):
                     sig = _call_signature(c, lc_m)
-                    if sig not in built.setdefault(call_name(c), []):
-                        built[call_name(c)].append(sig)
+                    if sig not in got.setdefault(call_name(c), []):
+                        got[call_name(c)].append(sig)
+        return got
+
+    if not any(transports(fns) for fns in by_class.values()):
+        by_class = _expanded_functions(jx, "client.py.jinja")
+    rep.require(any(transports(fns) for fns in by_class.values()), "a class of client.py.jinja that builds an httpx client, readable as Python")
+    n_transports = 0
+    for kls_name, fns in by_class.items():
+        kls = types.SimpleNamespace(name=kls_name)
+        built = transports(fns)
         if not built:
             continue
         n_transports += 1
@@ -1740,6 +1945,33 @@ def run(rep: Report, ctx: Any) -> str:
             return None
 
     _document_frame(_OnlyReadFields(rep, "R04.13"), ix, it)
+
+    # ---- R04.14: what is decoded for a document does not depend on what this process generated before ------------------------------
+    # The statement quantifies over documents and configurations, one at a time: which source and schema a documented status gets is
+    # a function of the document and of the configuration of this run (content_type_overrides among it).  Necessary for that: no
+    # function the response parser can reach (call graph from response_from_data / _add_responses; receivers that cannot be resolved
+    # reach every method of that name) writes to an object that outlives the call - a module-level variable (rebinding through
+    # `global`, an item / attribute store, a mutating method), class state through `cls`, an attribute of a function / class / module,
+    # a mutable parameter default.  One kind of such a write can be right: an entry `T[key] = v` / `T.setdefault(key, v)` of a table
+    # whose key names every parameter the function reads - then a later call finds the entry only for the same inputs.  (A functools
+    # cache is keyed on all arguments by construction: a helper that leaves an input out of its parameters can get at it only through
+    # state written elsewhere, which is a write of the first kind.)
+    from .c04_state import key_covers_inputs, process_writes, reached
+
+    rep.rule("R04.14", "no function reachable from response_from_data / _add_responses (call graph, unresolved receivers by method name) "
+                       "writes to an object that outlives the call (module-level variable, class state, function / module attribute, "
+                       "mutable parameter default), except an entry T[key] = v whose key names every parameter the function reads: the "
+                       "source and schema chosen for a status depend on the document and this run's configuration only")
+    reach = reached(ix, [rfd, ar])
+    rep.floor("functions_reached_by_response_parser", len(reach), 10)
+    for g in sorted(reach, key=lambda x: x.qual):
+        for n_w, obj, key in process_writes(g):
+            missing = [p for p in key_covers_inputs(g, key) if p != re.split(r"[.\[(]", obj, 1)[0]] if key is not None else None   # (the table itself is no input)
+            rep.check(missing == [], "R04.14", f"{short(g)}::process-state[{obj}]",
+                      f"{short(g)} keeps state in `{obj}`, which outlives the call" + (f", under a key that leaves out the input(s) {missing}" if missing else "")
+                      + ": a later generation in the same process (another configuration, another document) is answered from the earlier one",
+                      where(g, n_w), lhs=norm(n_w)[:200], rhs="no process-wide state, or an entry keyed on every input")
+    rep.ok("R04.14", "response-parser::no-process-state", f"{len(reach)} functions", "functions reached by the response parser")
 
     # ---- R04.9: the module of an operation is rendered from that operation (shared with C16) ---------------------------------------
     # Everything above is about what the endpoint template writes for the endpoint it is given; the statuses an operation documents are
